@@ -649,6 +649,7 @@ fn gen_pipeline(c: &mut dyn Choices) -> (crate::ast::PCase, crate::ast::Node) {
   (PCase { node, kinds, script, mode: SchedMode::Fifo, threads: c.flag() }, below)
 }
 
+type Tl14 = Vec<(i64, crate::value::Ev)>;
 fn run_pipeline(c: &mut dyn Choices, ctx: &Ctx) -> Outcome {
   use crate::ast::*;
   use crate::model::{self, Opts};
@@ -666,64 +667,91 @@ fn run_pipeline(c: &mut dyn Choices, ctx: &Ctx) -> Outcome {
     Err(m) => verdict = Verdict::Violation { sig: "panic:pipeline".into(), detail: format!("pipeline panicked: {m}") },
     Ok(tr) => {
       let act = crate::props::c04::trace_tl(tr);
-      // the reading (take(0), skip_last) under which the reference reproduces the delivered trace fixes the upstream timeline
-      let mut up = None;
-      'o: for sl in [false, true] {
+      // every reading (take(0), skip_last) under which the reference reproduces the delivered trace gives one candidate
+      // upstream timeline; the flags have to be right under at least one of them (two readings can reproduce the same
+      // delivered trace and still differ upstream of complete_status)
+      let mut ups: Vec<Tl14> = vec![];
+      for sl in [false, true] {
         for t0 in 0..3 {
           let o = Opts { skip_last_lazy: sl, take0_immediate: t0 == 1, take0_at_first_item: t0 == 2, ..Opts::default() };
           if model::eval(&case.node, &inputs, o).map_or(false, |e| e == act) {
-            up = model::eval(&below, &inputs, o);
-            break 'o;
+            if let Some(u) = model::eval(&below, &inputs, o) {
+              if !ups.contains(&u) {
+                ups.push(u);
+              }
+            }
           }
         }
       }
-      match up {
-        None => discard = true, // a difference in the delivered sequence is C03's business, not this part's
-        Some(up) => {
-          let term_up = up.last().filter(|(_, e)| e.is_terminal()).cloned();
-          let out_term = act.last().filter(|(_, e)| e.is_terminal()).cloned();
-          // the downstream ended strictly before the step of the upstream terminal: a pruning source (Subject) may never deliver it
-          let ended_before = match (&term_up, &out_term) {
-            (Some((st, _)), Some((so, _))) => so < st,
-            _ => false,
+      if ups.is_empty() {
+        discard = true; // a difference in the delivered sequence is C03's business, not this part's
+      }
+      let mut first_bad: Option<Verdict> = None;
+      let mut any_ok = false;
+      for up in &ups {
+        let term_up = up.last().filter(|(_, e)| e.is_terminal()).cloned();
+        let out_term = act.last().filter(|(_, e)| e.is_terminal()).cloned();
+        // the downstream ended strictly before the step of the upstream terminal: a pruning source (Subject) may never deliver it
+        let ended_before = match (&term_up, &out_term) {
+          (Some((st, _)), Some((so, _))) => so < st,
+          _ => false,
+        };
+        let ended_early = match (&term_up, &out_term) {
+          (Some((st, _)), Some((so, _))) => so <= st && act.len() < up.len() + 1,
+          _ => false,
+        };
+        let mut this_bad: Option<Verdict> = None;
+        for (idx, flags) in tr.status_after_step.iter().enumerate() {
+          let k: i64 = idx as i64 - 1; // -1 = after subscription
+          let Some(&(cf, ef)) = flags.first() else { continue };
+          let due = term_up.as_ref().filter(|(st, _)| *st <= k);
+          let bad = if cf && ef {
+            Some("both-flags")
+          } else {
+            match due {
+              None if cf || ef => Some("reported-without-terminal"),
+              Some((_, Ev::C)) if ef => Some("error-reported-for-completion"),
+              Some((_, Ev::Er(_))) if cf => Some("completion-reported-for-error"),
+              Some((_, Ev::C)) if !cf && !ended_before => Some("completion-not-reported"),
+              Some((_, Ev::Er(_))) if !ef && !ended_before => Some("error-not-reported"),
+              _ => None,
+            }
           };
-          let ended_early = match (&term_up, &out_term) {
-            (Some((st, _)), Some((so, _))) => so <= st && act.len() < up.len() + 1,
-            _ => false,
-          };
-          if term_up.is_some() {
-            labels.push("pipeline:source-terminated");
-            nt = true;
+          if let Some(b) = bad {
+            this_bad = Some(Verdict::Violation {
+              sig: format!("pipeline-status:{b}"),
+              detail: format!("after step {k}: is_completed={cf} error_occur={ef}; upstream of complete_status: [{}]; delivered: [{}]", up.iter().map(|(s, e)| format!("{}@{}", ev_short(e), s)).collect::<Vec<_>>().join(" "), tr.short()),
+            });
+            break;
           }
-          if ended_before {
-            labels.push("pipeline:downstream-ended-first");
-          } else if ended_early && term_up.is_some() {
-            labels.push("pipeline:downstream-ended-same-step");
-          }
-          for (idx, flags) in tr.status_after_step.iter().enumerate() {
-            let k: i64 = idx as i64 - 1; // -1 = after subscription
-            let Some(&(cf, ef)) = flags.first() else { continue };
-            let due = term_up.as_ref().filter(|(st, _)| *st <= k);
-            let bad = if cf && ef {
-              Some("both-flags")
-            } else {
-              match due {
-                None if cf || ef => Some("reported-without-terminal"),
-                Some((_, Ev::C)) if ef => Some("error-reported-for-completion"),
-                Some((_, Ev::Er(_))) if cf => Some("completion-reported-for-error"),
-                Some((_, Ev::C)) if !cf && !ended_before => Some("completion-not-reported"),
-                Some((_, Ev::Er(_))) if !ef && !ended_before => Some("error-not-reported"),
-                _ => None,
+        }
+        match this_bad {
+          None => {
+            if !any_ok {
+              // labels from the reading that explains the run
+              if term_up.is_some() {
+                labels.push("pipeline:source-terminated");
+                nt = true;
               }
-            };
-            if let Some(b) = bad {
-              verdict = Verdict::Violation {
-                sig: format!("pipeline-status:{b}"),
-                detail: format!("after step {k}: is_completed={cf} error_occur={ef}; upstream of complete_status: [{}]; delivered: [{}]", up.iter().map(|(s, e)| format!("{}@{}", ev_short(e), s)).collect::<Vec<_>>().join(" "), tr.short()),
-              };
-              break;
+              if ended_before {
+                labels.push("pipeline:downstream-ended-first");
+              } else if ended_early && term_up.is_some() {
+                labels.push("pipeline:downstream-ended-same-step");
+              }
+            }
+            any_ok = true;
+          }
+          Some(v) => {
+            if first_bad.is_none() {
+              first_bad = Some(v);
             }
           }
+        }
+      }
+      if !any_ok {
+        if let Some(v) = first_bad {
+          nt = true;
+          verdict = v;
         }
       }
     }
